@@ -66,9 +66,9 @@ Proof.
 Qed.
 
 (* processing a node that already has pod CIDRs issues no API request at all *)
-Theorem sync_assigned_node_writes_nothing po lab canp apisame held m node reread outs :
+Theorem sync_assigned_node_writes_nothing po lab svcs canp apisame held m node reread outs :
   n_cidrs node <> [] -> n_deleting node = false ->
-  snd (sync_node po lab canp apisame held m (Some node) reread outs) = [].
+  snd (sync_node po lab svcs canp apisame held m (Some node) reread outs) = [].
 Proof.
   intros Hc Hd. unfold sync_node. rewrite Hd. unfold allocate_or_occupy.
   destruct (n_cidrs node) as [|c cs]; [congruence|].
@@ -275,8 +275,8 @@ Qed.
 
 (* every PATCH of a node sync goes to the node being processed, is issued only when the re-read under
    the lock shows no pod CIDRs, and carries CIDRs none of which overlaps a pod CIDR of a cached node *)
-Theorem sync_node_patches po lab canp apisame held m cached reread outs m' r fx :
-  sync_node po lab canp apisame held m cached reread outs = (m', r, fx) ->
+Theorem sync_node_patches po lab svcs canp apisame held m cached reread outs m' r fx :
+  sync_node po lab svcs canp apisame held m cached reread outs = (m', r, fx) ->
   forall nm cs o, In (FxPatch nm cs o) fx ->
     (exists node, cached = Some node /\ nm = n_name node /\ n_cidrs node = []) /\
     (exists n, reread = Some n /\ n_cidrs n = []) /\
@@ -285,7 +285,7 @@ Proof.
   unfold sync_node. intros H nm cs o He.
   destruct cached as [node|]; [|inversion H; subst; destruct He].
   destruct (n_deleting node).
-  { destruct (release_cidr m node) as [m1 r1]. inversion H; subst. destruct He. }
+  { destruct (release_cidr svcs m node) as [m1 r1]. inversion H; subst. destruct He. }
   unfold allocate_or_occupy in H.
   destruct (n_cidrs node) as [|c0 cs0] eqn:En.
   2:{ destruct reread; [destruct (occupy_cidrs po lab m node) as [m1 r1]|]; inversion H; subst; destruct He. }
